@@ -24,7 +24,7 @@ ANCHORS = ["hashtable.py::HashTable.__init__", "hashtable.py::HashTable._build_r
            "hashtable.py::HashTable.__eq__", "hashtable.py::HashTable.items", "hashtable.py::HashTable.to_dict", "hashtable.py::zeros_like", "hashtable.py::ones_like"]
 OPS = ["get1", "getv", "getmiss", "set1", "setv", "setvv", "fill", "contains", "hs_contains1", "hs_containsv", "zeros_like", "ones_like", "add", "eq", "items", "to_dict", "getwide", "getreuse", "deepcopy", "pickle", "format"]
 FLOOR_TAGS = ["op:" + o for o in OPS] + ["init:scalar", "init:array", "mod:None", "mod:1", "mod:explicit", "keys:neg", "keys:big", "keys:dense", "keys:small",
-                                         "kd:int8", "kd:uint64", "kd:list", "kd:int64", "state:scalar-at-first-write", "derived-table-used", "values:infinite", "class:Counter"]
+                                         "kd:int8", "kd:uint64", "kd:list", "kd:int64", "state:scalar-at-first-write", "derived-table-used", "values:infinite", "class:Counter", "query:list", "query:other-sign", "query:narrow"]
 FLOOR_MONITORS = ["c11:eq-other-keys", "c11:step", "c11:readback", "c11:keyset", "c11:must-refuse", "c11:caller-arrays"]
 FP_STRICT = True       # a floating-point event inside the library that the dense computation does not have is a violation (shard.FpMonitor)
 N_RANDOM = {"quick": 4000, "thorough": 100000}
@@ -42,6 +42,29 @@ def karr(keys, kd):
 def qarr(q, kd):
     """typed query array"""
     return np.array(q, dtype=kd if kd else np.int64)
+
+
+def carry(q, kd, op, default=None):
+    """the keys of a question in the container / integer type the caller happens to have: a python list or tuple, the other signedness of the key
+    type, the narrowest type that holds them, 64-bit integers -- the answer is a matter of the key VALUES"""
+    c = op.get("qcarrier")
+    base = default if default is not None else (kd if kd else np.int64)
+    if not c or not len(q):
+        return np.array(q, dtype=base)
+    if c in ("list", "tuple"):
+        if np.asarray(list(q)).dtype.kind not in "iu":
+            return np.array(q, dtype=base)      # (numpy itself reads such a list as doubles or objects: numbers below and above 2**63 side by side)
+        return list(q) if c == "list" else tuple(q)
+    if c == "other-sign":
+        k_ = np.dtype(base)
+        dt = np.dtype(("u" if k_.kind == "i" else "i") + str(k_.itemsize)) if k_.kind in "iu" else k_
+    elif c == "narrow":
+        dt = next((np.dtype(d) for d in ("int8", "uint8", "int16", "uint16", "int32", "uint32", "int64", "uint64") if np.iinfo(d).min <= min(q) and max(q) <= np.iinfo(d).max), np.dtype(base))
+    else:
+        dt = np.dtype(c)
+    if dt.kind in "iu" and np.iinfo(dt).min <= min(q) and max(q) <= np.iinfo(dt).max:
+        return np.array(q, dtype=dt)
+    return np.array(q, dtype=base)
 
 
 def eqval(a, b):
@@ -119,11 +142,13 @@ def run(case):
                 bad = "table[%r] gives %s, the dictionary says %s" % (k, repr(a) if not a.ok else a.value, md[k])
         elif name in ("getv", "getwide"):
             q = op["keys"]
-            qa = qarr(q, kd) if name == "getv" else np.array(q, dtype=op["qdtype"])
+            qa = carry(q, kd, op) if name == "getv" else np.array(q, dtype=op["qdtype"])
+            if op.get("qcarrier"):
+                tags.append("query:" + (op["qcarrier"] if op["qcarrier"] in ("list", "tuple", "other-sign", "narrow") else "typed"))
             a = attempt(lambda: np.asarray(tb[qa]))
             e = [md[k] for k in q]
             if not a.ok or a.value.shape != (len(q),) or not all(eqval(x, y) for x, y in zip(a.value.tolist(), e)):
-                bad = "table[%s %s] gives %s, the dictionary says %s" % (qa.dtype, short(q, 100), repr(a) if not a.ok else short(a.value, 120), short(e, 120))
+                bad = "table[%s %s] gives %s, the dictionary says %s" % (getattr(qa, "dtype", type(qa).__name__), short(q, 100), repr(a) if not a.ok else short(a.value, 120), short(e, 120))
         elif name == "getreuse":
             # one query array object, looked up, refilled in place by the caller, looked up again (and once more with an absent key)
             q1, q2 = op["keys"], op["keys2"]
@@ -144,11 +169,11 @@ def run(case):
                     bad = "after the caller put the absent key %s into the same query array, the lookup was answered: %s" % (op["miss"], short(a3.value, 80))
         elif name == "getmiss":
             q = op["keys"]
-            qa = np.array(q, dtype=op.get("qdtype") or (kd if kd else np.int64))
+            qa = carry(q, kd, op, op.get("qdtype"))
             CTX.tick("c11:must-refuse")
             a = attempt(lambda: tb[qa])
             if a.ok:
-                bad = "a vector lookup containing the absent key(s) %s was answered: table[%s %s] -> %s" % ([k for k in q if k not in md], qa.dtype, short(q, 100), short(a.value, 100))
+                bad = "a vector lookup containing the absent key(s) %s was answered: table[%s %s] -> %s" % ([k for k in q if k not in md], getattr(qa, "dtype", type(qa).__name__), short(q, 100), short(a.value, 100))
         elif name in ("set1", "setv", "setvv"):
             q, vals = op["keys"], op["vals"]
             if not written and scalar_init and tname == "t":
@@ -176,11 +201,13 @@ def run(case):
                     md[k_] = op["val"]
         elif name == "contains":
             q = op["keys"]
-            qa = np.array(q, dtype=op.get("qdtype") or (kd if kd else np.int64))
+            qa = carry(q, kd, op, op.get("qdtype"))
+            if op.get("qcarrier"):
+                tags.append("query:" + (op["qcarrier"] if op["qcarrier"] in ("list", "tuple", "other-sign", "narrow") else "typed"))
             a = attempt(lambda: np.asarray(tb.contains(qa)).tolist())
             e = [k in md for k in q]
             if not a.ok or a.value != e:
-                bad = "contains(%s %s) gives %s, expected %s" % (qa.dtype, short(q, 100), repr(a) if not a.ok else a.value, e)
+                bad = "contains(%s %s) gives %s, expected %s" % (getattr(qa, "dtype", type(qa).__name__), short(q, 100), repr(a) if not a.ok else a.value, e)
         elif name in ("hs_contains1", "hs_containsv"):
             if not hs.ok:
                 bad = "HashSet construction raised %r" % hs
@@ -192,11 +219,11 @@ def run(case):
                     bad = "HashSet.contains(%r) gives %s, expected %s" % (k, repr(a) if not a.ok else a.value, k in model)
             else:
                 q = op["keys"]
-                qa = np.array(q, dtype=op.get("qdtype") or (kd if kd else np.int64))
+                qa = carry(q, kd, op, op.get("qdtype"))
                 a = attempt(lambda: np.asarray(hs.value.contains(qa)).tolist())
                 e = [k in model for k in q]
                 if not a.ok or a.value != e:
-                    bad = "HashSet.contains(%s %s) gives %s, expected %s" % (qa.dtype, short(q, 100), repr(a) if not a.ok else a.value, e)
+                    bad = "HashSet.contains(%s %s) gives %s, expected %s" % (getattr(qa, "dtype", type(qa).__name__), short(q, 100), repr(a) if not a.ok else a.value, e)
         elif name in ("zeros_like", "ones_like"):
             f = np.zeros_like if name == "zeros_like" else np.ones_like
             a = attempt(f, tb)
@@ -231,7 +258,16 @@ def run(case):
                 tags.append("add:scalar-valued-operand")
             else:
                 t2 = (TABLE if (TABLE is lib.HashTable or np.asarray(other_vals).dtype.kind in "iu") else lib.HashTable)(karr(keys, kd), np.array(other_vals, dtype=vdt), **kw)
-            if op.get("other_order") and len(keys) >= 2 and op.get("scalar_other") is None:
+            kd2_ = op.get("other_kd")
+            if kd2_ and kd is not None and case.get("mod") is not None and op.get("scalar_other") is None and not op.get("other_order") and all(np.iinfo(kd2_).min <= k_ <= np.iinfo(kd2_).max for k_ in keys):
+                # the second table holds the SAME keys in the same order in another integer type (built from a list, read from a file with another width)
+                t2 = lib.HashTable(karr(keys, kd2_), np.array(other_vals, dtype=vdt), **kw)
+                tags.append("add:other-key-type")
+                a = attempt(lambda: tb + t2)
+                if not a.ok and len({k_ % int(case["mod"]) for k_ in keys}) < len(keys):
+                    ops_declined = True      # (keys that share a bucket may sit in another order there, depending on the type they were sorted in: declining is not a wrong sum)
+                    continue
+            elif op.get("other_order") and len(keys) >= 2 and op.get("scalar_other") is None:
                 # the second table is built on its own over the SAME key set given in another order (keys that share a bucket then sit in another order
                 # inside it): the sum, if the library forms it at all, is the per-key sum
                 perm_ = sorted(range(len(keys)), key=lambda i_: (i_ * 7 + len(keys) // 2) % len(keys)) if op["other_order"] == "mixed" else list(range(len(keys)))[::-1]
@@ -442,6 +478,8 @@ def gen_history(rng, tier, kd="pick", style=None, mod="pick", scalar_init=None, 
             op["py"] = rng.random() < 0.5
         elif name == "getv":
             op["keys"] = [rng.choice(keys) for _ in range(rng.randint(0, 7))]
+            if kd is not None and rng.random() < 0.4:
+                op["qcarrier"] = rng.choice(["list", "tuple", "other-sign", "narrow", "int64", "uint64"])
         elif name == "getwide":
             if not widenable:
                 op = {"op": "getv", "table": tb, "keys": [rng.choice(keys) for _ in range(rng.randint(1, 5))]}
@@ -464,6 +502,8 @@ def gen_history(rng, tier, kd="pick", style=None, mod="pick", scalar_init=None, 
             op["keys"] = q
             if wide:
                 op["qdtype"] = "int64"
+            elif kd is not None and rng.random() < 0.3:
+                op["qcarrier"] = rng.choice(["list", "tuple", "other-sign", "narrow", "int64", "uint64"])
         elif name in ("set1", "setv", "setvv"):
             q = [rng.choice(keys)] if name == "set1" else rng.sample(keys, rng.randint(1, n))
             if name == "setv" and n > 1 and rng.random() < 0.4:
@@ -490,6 +530,14 @@ def gen_history(rng, tier, kd="pick", style=None, mod="pick", scalar_init=None, 
                 op["qdtype"] = "int64"
             elif any(not (lo <= x <= hi) for x in q):
                 op["keys"] = [x for x in q if lo <= x <= hi] or [keys[0]]
+            if kd is not None and rng.random() < 0.4:
+                op["qcarrier"] = rng.choice(["list", "tuple", "other-sign", "narrow", "int64", "uint64"])
+                if op["qcarrier"] in ("list", "tuple") and rng.random() < 0.6:
+                    # a python sequence may hold numbers the key type cannot: they are simply not keys
+                    far_ = [x for x in (np.iinfo(kd).max + 1 + rng.randint(0, 50), np.iinfo(kd).min - 1 - rng.randint(0, 50), 2 ** 40 + 3, -2 ** 40 - 3) if not (lo <= x <= hi) and -2 ** 63 <= x < 2 ** 63 and not (x < 0 and max(op["keys"]) >= 2 ** 63)]
+                    if far_:
+                        op["keys"] = list(op["keys"]) + [rng.choice(far_)]
+                        rng.shuffle(op["keys"])
         elif name in ("zeros_like", "ones_like", "deepcopy", "pickle"):
             ntables += 1
         elif name == "add":
@@ -498,6 +546,8 @@ def gen_history(rng, tier, kd="pick", style=None, mod="pick", scalar_init=None, 
                 op["scalar_other"] = rng.choice([0.5, 0.25, 2, 1.5, 7])
             elif rng.random() < 0.5:
                 op["other_order"] = rng.choice(["reversed", "mixed"])
+            elif rng.random() < 0.6:
+                op["other_kd"] = rng.choice(["int64", "int32", "uint64", "int16", "uint8"])
             ntables += 1
         elif name == "eq":
             op["differ"] = None if rng.random() < 0.5 else rng.randrange(n)
